@@ -523,6 +523,5 @@ theorem C23_syntax_error_in_document_fixed (m : Mode) (hm : m.synFixed = true) (
   have hc : m.synFixed = true ∧ (0 : Int) ≤ off ∧ (off : Int) ≤ stop ∧ (stop : Int) ≤ c.length := by
     refine ⟨hm, ?_, ?_, ?_⟩ <;> omega
   simp only [originOf, hc, and_self, if_true, Origin.inDoc, decide_eq_true_eq]
-  refine ⟨by omega, by omega, by omega, ?_, ?_⟩ <;> simp
 
 end TmVerif.LS
